@@ -10,6 +10,9 @@ use scpi_contrib::scpi1999::EventRegister;
 
 #[derive(Clone, Copy, PartialEq, Debug)]
 pub enum Focus {
+    /// the same machine, observed for what C05 says about the error hook: it sees exactly the error of a failing message, once,
+    /// and nothing when the message succeeds - here with the library's own command implementations as handlers
+    C05,
     C13,
     C15,
     C16,
@@ -36,6 +39,7 @@ enum U {
     StbQ,
     TstQ,
     Wai,
+    Trg,
     EventQ(Reg),
     CondQ(Reg),
     Enab(Reg, i64, Vec<u8>),
@@ -124,7 +128,7 @@ fn gen_unit(rng: &mut Rng, focus: Focus) -> U {
     // weights per focus
     let w = rng.usize(100);
     let (a, b, c) = match focus {
-        Focus::C13 => (45, 60, 80), // queue+errors | registers | common
+        Focus::C13 | Focus::C05 => (45, 60, 80), // queue+errors | registers | common
         Focus::C15 => (10, 80, 90),
         Focus::C16 => (15, 40, 92),
     };
@@ -163,7 +167,8 @@ fn gen_unit(rng: &mut Rng, focus: Focus) -> U {
             _ => U::Cls,
         }
     } else if w < c {
-        match rng.usize(16) {
+        match rng.usize(17) {
+            16 => U::Trg,
             0 | 1 | 2 => U::StbQ,
             3 => {
                 let v = val8(rng);
@@ -248,6 +253,7 @@ fn render(rng: &mut Rng, u: &U) -> Vec<u8> {
         U::StbQ => s += *rng.pick(&["*STB?", "*stb?"]),
         U::TstQ => s += "*TST?",
         U::Wai => s += "*WAI",
+        U::Trg => s += *rng.pick(&["*TRG", "*trg"]),
         U::EventQ(r) => {
             let form = *rng.pick(&["", ":EVEN", ":EVENt", ":even"]);
             s += &format!("{}:{}{}?", stat(rng), reg_name(rng, *r), form);
@@ -304,7 +310,7 @@ fn parse_param(v: i64, max: i64) -> Result<u16, ()> {
     }
 }
 
-fn apply(m: &mut RefStatus, u: &U, mav: bool, tst: Option<Error>) -> (Out, Option<(Vec<u8>, Vec<u8>)>) {
+fn apply(m: &mut RefStatus, u: &U, mav: bool, tst: Option<Error>, trg: Option<Error>) -> (Out, Option<(Vec<u8>, Vec<u8>)>) {
     // second return: alternative acceptable response (for *STB? when the two summary definitions differ)
     let reg = |m: &mut RefStatus, r: Reg| -> *mut RegSet {
         match r {
@@ -348,6 +354,11 @@ fn apply(m: &mut RefStatus, u: &U, mav: bool, tst: Option<Error>) -> (Out, Optio
         }
         U::OpcQ => Out::Ok(Some(b"1".to_vec())),
         U::Rst | U::Wai | U::Nop => Out::Ok(None),
+        // a bus trigger the device refuses fails its message like any handler error; one it accepts changes no status
+        U::Trg => match trg {
+            None => Out::Ok(None),
+            Some(e) => Out::Fail(Some(e.get_code()), Some(e)),
+        },
         U::NopQ => Out::Ok(Some(b"7".to_vec())),
         U::StbQ => {
             let a = m.stb(mav, false);
@@ -509,13 +520,19 @@ fn run_fixed<D: scpi::Device>(cap: usize, root: &scpi::tree::Node<D>, msg: &[u8]
 }
 
 fn run_history<Q: QueueBackend + 'static>(rng: &mut Rng, ctx: &mut Ctx, focus: Focus) {
-    let tree = &<StdDev<Q> as HasTree>::TREE;
+    // the documented flat tree, or the common commands kept in an optional branch below the root (they "resolve at the root" all the same)
+    let nested = rng.chance(1, 4);
+    let tree = if nested { &<StdDev<Q> as HasTree>::TREE_NESTED } else { &<StdDev<Q> as HasTree>::TREE };
+    if nested {
+        ctx.count("histories.common-commands-in-an-optional-branch");
+    }
     let mut dev: StdDev<Q> = StdDev::new();
     let mut m = RefStatus::new(Q::CAP);
     let p = format!("{:?}", focus);
     let long = if rng.chance(1, 10) { 196 } else { 56 };
     let nsteps = if ctx.cfg.tiny { 10 + rng.usize(15) } else { 5 + rng.usize(long) };
     dev.tst = if rng.chance(1, 3) { Some(*rng.pick(fail_table())) } else { None };
+    dev.trg = if rng.chance(1, 3) { Some(*rng.pick(fail_table())) } else { None };
     let mut trace: Vec<String> = vec![];
     let mut hh = hash_str(Q::NAME);
     // one Context for the whole history, as an interface keeps it: its message-available flag is whatever the
@@ -538,7 +555,19 @@ fn run_history<Q: QueueBackend + 'static>(rng: &mut Rng, ctx: &mut Ctx, focus: F
                 Reg::Oper => (&mut dev.operation, &mut m.oper),
                 Reg::Ques => (&mut dev.questionable, &mut m.ques),
             };
-            match rng.usize(4) {
+            match rng.usize(5) {
+                4 => {
+                    // the register's own housekeeping calls, as device code uses them
+                    if rng.bool() {
+                        dr.clear_event();
+                        mr.event = 0;
+                        trace.push(format!("[dev {:?} clear_event()]", which));
+                    } else {
+                        dr.preset();
+                        mr.preset();
+                        trace.push(format!("[dev {:?} preset()]", which));
+                    }
+                }
                 0 => {
                     dr.set_condition_bits(x);
                     let nv = mr.cond | x;
@@ -618,7 +647,7 @@ fn run_history<Q: QueueBackend + 'static>(rng: &mut Rng, ctx: &mut Ctx, focus: F
         let mut want_fail: Option<(Option<i16>, Option<Error>, String)> = None;
         let before = m.clone();
         for u in &units {
-            let (o, alt) = apply(&mut m, u, mav, dev.tst);
+            let (o, alt) = apply(&mut m, u, mav, dev.tst, dev.trg);
             match o {
                 Out::Ok(None) => {}
                 Out::Ok(Some(t)) => {
@@ -644,9 +673,16 @@ fn run_history<Q: QueueBackend + 'static>(rng: &mut Rng, ctx: &mut Ctx, focus: F
         // or so that only the terminator does not (then every unit has run and the message fails with -225, which is
         // queued and flagged like any other failure)
         let fixed: Option<usize> = if want_fail.is_none() && alts.is_empty() && !want_resp.is_empty() && want_resp.len() <= 49 && rng.chance(1, 6) { Some(if rng.chance(1, 3) { want_resp.len() } else { want_resp.len() - 1 }) } else { None };
+        // now and then the response buffer still holds an earlier, unread response (one output buffer per connection,
+        // drained when the controller reads): what the library writes behind it is not judged here, but the message's
+        // effect on queue and registers is the same as with an empty buffer
+        let leftover = fixed.is_none() && rng.chance(1, 10);
         let (r, resp) = match fixed {
             None => {
-                let mut resp: Vec<u8> = Vec::new();
+                let mut resp: Vec<u8> = if leftover { b"7\n".to_vec() } else { Vec::new() };
+                if leftover {
+                    ctx.count("messages.response-buffer-not-empty-at-start");
+                }
                 let r = tree.run(&msg, &mut dev, &mut c, &mut resp);
                 (r, resp)
             }
@@ -675,7 +711,7 @@ fn run_history<Q: QueueBackend + 'static>(rng: &mut Rng, ctx: &mut Ctx, focus: F
         match (&r, &want_fail) {
             (Ok(()), None) => {
                 // response
-                let mut ok = resp == want_resp;
+                let mut ok = resp == want_resp || leftover;
                 if !ok && !alts.is_empty() {
                     // accept the SCPI-99 (event based) summary definition for *STB? as well
                     let mut alt_resp = want_resp.clone();
@@ -692,7 +728,7 @@ fn run_history<Q: QueueBackend + 'static>(rng: &mut Rng, ctx: &mut Ctx, focus: F
                     let want_units: Vec<&[u8]> = want_resp.strip_suffix(b"\n").unwrap_or(&want_resp).split(|c| *c == b';').collect();
                     let k = got_units.iter().zip(want_units.iter()).position(|(a, b)| a != b).unwrap_or(got_units.len().min(want_units.len()));
                     let mut scratch = before.clone();
-                    let answering: Vec<String> = units.iter().filter(|u| matches!(apply(&mut scratch, u, mav, dev.tst).0, Out::Ok(Some(_)))).map(unit_name).collect();
+                    let answering: Vec<String> = units.iter().filter(|u| matches!(apply(&mut scratch, u, mav, dev.tst, dev.trg).0, Out::Ok(Some(_)))).map(unit_name).collect();
                     let which = if resp.len() + 1 == want_resp.len() || resp.len() == want_resp.len() + 1 { "terminator".to_string() } else { answering.get(k).cloned().unwrap_or_else(|| "?".into()) };
                     ctx.violation(&format!("{}:response-differs:{}", p, which), detail("response", show(&want_resp), show(&resp)));
                     return;
@@ -711,7 +747,7 @@ fn run_history<Q: QueueBackend + 'static>(rng: &mut Rng, ctx: &mut Ctx, focus: F
                 // what the queries executed before the failing unit returned (and, for SYST:ERR? / *ESR? / event
                 // reads, removed from the device) must still be in the output buffer: an answer that is discarded
                 // after its destructive read is an item lost unread
-                if want_resp.len() > 1 {
+                if want_resp.len() > 1 && !leftover {
                     let prefix = &want_resp[..want_resp.len() - 1];
                     let mut ok = resp.starts_with(prefix);
                     if !ok && !alts.is_empty() {
@@ -776,7 +812,7 @@ fn run_history<Q: QueueBackend + 'static>(rng: &mut Rng, ctx: &mut Ctx, focus: F
 }
 
 pub fn run(cfg: &Cfg, rep: &mut Report, focus: Focus) {
-    let n = cfg.n(30, 750_000, 15_000_000);
+    let n = cfg.n(30, 750_000, 15_000_000) / if focus == Focus::C05 { 4 } else { 1 };
     run_cases(cfg, "histories", n, rep, |rng, ctx| match ctx.index % 3 {
         0 => run_history::<std::collections::VecDeque<Error>>(rng, ctx, focus),
         1 => run_history::<Vec<Error>>(rng, ctx, focus),
